@@ -340,7 +340,15 @@ class Documentable:
         parts = name.split('.')
         obj: Documentable = self
         for i, p in enumerate(parts):
-            full_name = obj._localNameToFullName(p)
+            if i != 0 and isinstance(obj, Class):
+                # An attribute of a class is looked up in the class and in the classes it inherits from,
+                # not in the scopes that enclose the class statement.
+                if p in obj.contents:
+                    full_name = obj.contents[p].fullName()
+                else:
+                    full_name = obj._localNameToFullName_map.get(p, p)
+            else:
+                full_name = obj._localNameToFullName(p)
             if full_name == p and i != 0:
                 # The local name was not found.
                 # If we're looking at a class, we try our luck with the inherited members
